@@ -311,6 +311,34 @@ example : AsciiCompatible utf8Codec ∧
   refine ⟨utf8_asciiCompatible, ⟨by decide +kernel, by decide +kernel⟩,
     Or.inl ⟨"## coding: utf-8".toList, "é".toList, rfl, by decide +kernel⟩, by decide +kernel, by decide, rfl⟩
 
+/-- Preprocessors run on the *decoded text*: `Lexer.parse` decodes first (obligation `decode_precedes_preprocessors` on
+its statement order), hands the `str` to the preprocessors in turn, and skips the coding comment on what they return. -/
+theorem preprocessors_get_decoded_text (env : Env) (inp : Input) (known : Option Name) (pre : List (Text → Text)) :
+    lexStartP env inp known pre =
+      match decodeRawStream env inp true known with
+      | .error e => .error e
+      | .ok (n, .str t) => .ok ⟨n, applyAll pre t, codingSkip (applyAll pre t)⟩
+      | .ok (n, .bytes _) => .error (.undecodable n) := by
+  simp only [lexStartP, decode_precedes_preprocessors.1, decode_precedes_preprocessors.2, if_true]
+  cases h : decodeRawStream env inp true known with
+  | error e => rfl
+  | ok p => obtain ⟨n, i⟩ := p; cases i <;> rfl
+
+/-- … hence, under the hypotheses of `bytes_compile_as_text`, a template given as bytes and its decoded text give the
+lexer the same input **for every list of preprocessors**. -/
+theorem bytes_compile_as_text_preprocessed (env : Env) (c : Codec) (hA : AsciiCompatible c) (t : Text) (b : Bytes)
+    (hrt : RoundTripOn c t b) (hh : HeaderOk t) (hbom : stripBom b = none) (known : Option Name)
+    (hdecl : env.codecOf (chooseStr t known) = some c) (pre : List (Text → Text)) :
+    lexStartP env (.bytes b) known pre = lexStartP env (.str t) known pre ∧
+    lexStartP env (.str t) known pre = .ok ⟨chooseStr t known, applyAll pre t, codingSkip (applyAll pre t)⟩ := by
+  rw [preprocessors_get_decoded_text, preprocessors_get_decoded_text,
+    (bytes_compile_as_text env c hA t b hrt hh hbom known hdecl).1]
+  exact ⟨rfl, rfl⟩
+
+-- a preprocessor that changes the text (`a` ↦ `A`) on the utf-8 bytes of `é a`: it sees `é a`, the lexer gets `é A`
+example : lexStartP env0 (.bytes [0xC3, 0xA9, 32, 97]) none [fun t => t.map fun ch => if ch = 'a' then 'A' else ch] =
+    .ok ⟨utf8Name, "é A".toList, 0⟩ := by decide +kernel
+
 /-- `## -*- coding: latin-1 -*-\nhé ${x}` -/
 def sampleText : Text := "## -*- coding: latin-1 -*-\nhé ${x}".toList
 
@@ -414,55 +442,68 @@ example : AsciiPrefix sjisCut ∧ ¬ AsciiCompatible sjisCut := sjisCut_prefix_o
 
 /-! ## 5. The module file: written with a magic comment, read back by the declared-encoding rule -/
 
-/-- A module made of ASCII scaffolding, `repr`s of and verbatim copies of strings whose characters the template's codec
-can encode (the characters of the template), and the template's file name and uri – **arbitrary** strings, written with
-`%a` since the repair of F-C18-4 (`Piece.nameOf` has no payload) – is written successfully by `_compile_module_file`. -/
+/-- A module made of the magic comment, the `from __future__ import` line (any list of ASCII names), ASCII scaffolding,
+`repr`s of and verbatim copies of strings whose characters the template's codec can encode (the characters of the
+template), and the template's file name and uri – **arbitrary** strings, written with `%a` since the repair of F-C18-4
+(`Piece.nameOf` has no payload) – is written successfully by `_compile_module_file`. -/
 theorem module_file_written (env : Env) (c : Codec) (f : Char → Option Bytes) (hc : Charwise c f)
     (hf : ∀ ch, isAsciiChar ch = true → f ch = some [ch.toNat])
-    (np : Char → Bool) (n : Name) (hn : IsCodecName n) (hcodec : env.codecOf n = some c) (body : List Piece)
+    (np : Char → Bool) (n : Name) (hn : IsCodecName n) (hcodec : env.codecOf n = some c)
+    (future : List Name) (hfut : ∀ m ∈ future, isAsciiText m = true) (body : List Piece)
     (hw : ∀ p ∈ body, p.wellFormed = true) (hp : ∀ p ∈ body, ∀ ch ∈ p.payload, (f ch).isSome = true) :
-    ∃ B, compileModuleFile env np (some n) body = .ok B ∧ c.enc (moduleText np (some n) true body) = some B := by
+    ∃ B, compileModuleFile env np (some n) future body = .ok B ∧
+      c.enc (moduleText np (some n) true future body) = some B := by
   obtain ⟨x, xs, rfl⟩ := List.exists_cons_of_ne_nil hn.1
-  have hsome : (c.enc (moduleText np (some (x :: xs)) true body)).isSome = true := by
+  have hsome : (c.enc (moduleText np (some (x :: xs)) true future body)).isSome = true := by
     rw [hc, encAll_isSome]
     intro ch hm
-    rcases moduleText_chars np _ hn body hw ch hm with h | ⟨p, hpm, hch⟩
+    rcases moduleText_chars np _ hn future hfut body hw ch hm with h | ⟨p, hpm, hch⟩
     · rw [hf ch h]; rfl
     · exact hp p hpm ch hch
   obtain ⟨B, hB⟩ := Option.isSome_iff_exists.1 hsome
   refine ⟨B, ?_, hB⟩
   simp [compileModuleFile, orDefault, hcodec, module_file_has_magic.1, hB]
 
+/-- The coding comment is the **first line** of the module file whatever `future_imports` are (it is written before the
+`from __future__ import` line: obligation `magic_comment_first` on the statement order of `write_toplevel`), so that
+Python – which looks for the comment on line 2 only when line 1 is a comment too – and `parse_encoding` find it. -/
+theorem module_file_starts_with_magic_comment (np : Char → Bool) (n : Name) (hn : IsCodecName n) (future : List Name)
+    (body : List Piece) :
+    ∃ rest, moduleText np (some n) Generated.Encoding.magicInModuleFile future body = magicLine n ++ '\n' :: rest := by
+  rw [module_file_has_magic.1, moduleText_magic np n hn future body]
+  exact ⟨futureLine future ++ body.flatMap (Piece.render np), by simp⟩
+
 /-- The bytes written for the module (the module text starting with `# -*- coding:<name> -*-`, encoded with the
 template's codec) are read back by `util.read_python_file` – encoding taken from the magic comment by
-`parse_encoding`, then decoded – as exactly the generated text. -/
+`parse_encoding`, then decoded – as exactly the generated text; for every list of future imports. -/
 theorem module_file_roundtrip (env : Env) (c : Codec) (hA : AsciiPrefix c) (hR : RoundTrip c)
     (np : Char → Bool) (parses : Text → Bool) (n : Name) (hn : IsCodecName n) (hcodec : env.codecOf n = some c)
-    (body : List Piece) (B : Bytes) (hB : compileModuleFile env np (some n) body = .ok B) :
+    (future : List Name) (body : List Piece) (B : Bytes)
+    (hB : compileModuleFile env np (some n) future body = .ok B) :
     parseEncoding parses B = .ok (some n) ∧
-    readPythonFile env parses B = .ok (.str (moduleText np (some n) true body)) := by
-  have henc : c.enc (moduleText np (some n) true body) = some B := by
+    readPythonFile env parses B = .ok (.str (moduleText np (some n) true future body)) := by
+  have henc : c.enc (moduleText np (some n) true future body) = some B := by
     obtain ⟨x, xs, rfl⟩ := List.exists_cons_of_ne_nil hn.1
     simp only [compileModuleFile, orDefault, hcodec, module_file_has_magic.1] at hB
     split at hB
     · cases hB
     · rename_i b hb; injection hB with hB; subst hB; exact hb
   have hdec := hR _ _ henc
-  rw [moduleText_magic np n hn body] at henc
+  rw [moduleText_magic np n hn future body] at henc
   obtain ⟨B', _, rfl⟩ := hA.split (magicLine_ascii n hn) henc
   have hpe := parseEncoding_magic parses n hn B'
   exact ⟨hpe, by simp [readPythonFile, hpe, hcodec, hdec]⟩
 
 -- non-vacuity: a latin-1 module with a `repr` and a verbatim piece
 example : IsCodecName latin1Name ∧ env0.codecOf latin1Name = some latin1Codec ∧
-    (∃ B, compileModuleFile env0 (fun _ => false) (some latin1Name)
+    (∃ B, compileModuleFile env0 (fun _ => false) (some latin1Name) ["annotations".toList, "division".toList]
       [.scaffold "__M_writer(".toList, .reprOf "hé'".toList, .scaffold ")\n".toList, .code "x = 'ü'".toList] = .ok B) := by
   refine ⟨⟨by decide, by decide +kernel⟩, rfl, ?_⟩
   obtain ⟨f, hc, hf, _⟩ := latin1_asciiCompatible
   obtain ⟨B, hB, _⟩ := module_file_written env0 latin1Codec _ (byteCodec_charwise 256)
     (by intro ch h; have : ch.toNat < 128 := by simpa [isAsciiChar] using h
         simp [show ch.toNat < 256 by omega])
-    (fun _ => false) latin1Name ⟨by decide, by decide +kernel⟩ rfl
+    (fun _ => false) latin1Name ⟨by decide, by decide +kernel⟩ rfl ["annotations".toList, "division".toList] (by decide)
     [.scaffold "__M_writer(".toList, .reprOf "hé'".toList, .scaffold ")\n".toList, .code "x = 'ü'".toList]
     (by decide +kernel) (by decide +kernel)
   exact ⟨B, hB⟩
@@ -472,9 +513,9 @@ example : AsciiPrefix latin1Codec ∧ RoundTrip latin1Codec :=
   ⟨asciiPrefix_of_asciiCompatible _ latin1_asciiCompatible, latin1_roundTrip⟩
 
 -- the file name `é.html` (not ASCII) in the module of an ascii template: written, since F-C18-4 was repaired
-example : compileModuleFile env0 (fun _ => false) (some asciiName)
+example : compileModuleFile env0 (fun _ => false) (some asciiName) ["division".toList]
       [.scaffold "_template_filename = ".toList, .nameOf "é.html".toList, .scaffold "\n".toList] =
-    .ok (asciiBytes ("# -*- coding:ascii -*-\n_template_filename = '\\xe9.html'\n".toList)) := by
+    .ok (asciiBytes ("# -*- coding:ascii -*-\nfrom __future__ import division\n_template_filename = '\\xe9.html'\n".toList)) := by
   decide +kernel
 
 /-! ## 6. `Template.source` -/
